@@ -294,6 +294,25 @@ func c19Slice(c *fw.Ctx, base, inner int) {
 				if d.Offset() != off {
 					c.Violation("Decoder.SkipAlign", "align", "idempotent", fmt.Sprintf("aligned offset moved again by %d", d.Offset()-off))
 				}
+				// alignment is counted from the start of the enclosing message and does not depend on how many bytes the
+				// decoder has left: a decoder cut to an element's declared length (padding not included) still lands on
+				// the next multiple of 8, beyond its own end if need be
+				if depth == 1 && rewind == 0 {
+					for left := 0; left <= 8 && left <= inner; left++ {
+						pd := ofbase.NewDecoder(buf)
+						pd.Skip(base)
+						cd := pd.SliceDecoder(inner, 0) // exactly `inner` bytes: nothing behind the element
+						cd.Skip(inner - left)
+						before := cd.BaseOffset() + cd.Offset()
+						cd.SkipAlign()
+						after := cd.BaseOffset() + cd.Offset()
+						c.Count("short_buffer_alignments", 1)
+						if after%8 != 0 || after < before || after-before > 7 {
+							c.Violation("Decoder.SkipAlign", "align", "short-buffer", fmt.Sprintf("sliced decoder of %d bytes at base %d with %d bytes left: SkipAlign moved the absolute position %d -> %d", inner, base, left, before, after))
+							break
+						}
+					}
+				}
 			})
 			if p {
 				c.Violation("SliceDecoder", "panic", fw.LibFrame(st), v+"\n"+fw.TrimStack(st))
